@@ -1175,3 +1175,38 @@ func ruleWholeObject(w *World, r *Report, pkg *ssa.Package, tag, fAdd string) {
 		fmt.Sprintf("the %d hunks that put the whole argument into %s lie on the edge where the argument is not an object", n, fAdd),
 		"a hunk at "+bad+" replaces the receiver by the whole argument although both are objects: objects must be diffed key by key (a merge patch that writes {} over an object changes nothing under RFC 7386)")
 }
+
+// ruleIdentProv: the identity of a set member is a projection of the member:
+// every value pathIdent puts into the identity it hashes is loaded from the
+// candidate object itself (no synthesised stand-ins for missing keys).
+func ruleIdentProv(w *World, r *Report, pkg *ssa.Package, tag string) {
+	const rule = "R-IDENTPROV"
+	fn := w.MethodOpt(pkg, "jsonObject", "pathIdent")
+	if fn == nil {
+		infra("%s: (jsonObject).pathIdent not found", tag)
+	}
+	r.Fn(fnName(fn))
+	d := NewDeriv(w, fn)
+	recv := fn.Params[0]
+	n := 0
+	bad := ""
+	allInstrs(fn, func(in ssa.Instruction) {
+		mu, ok := in.(*ssa.MapUpdate)
+		if !ok {
+			return
+		}
+		// only maps whose values are nodes / interface{} (the identity), not bookkeeping maps
+		if mt, ok := mu.Map.Type().Underlying().(*types.Map); ok {
+			if _, isIface := mt.Elem().Underlying().(*types.Interface); !isIface {
+				return
+			}
+		}
+		n++
+		if !d.HasRoot(mu.Value, recv) {
+			bad = w.Pos(mu.Pos())
+		}
+	})
+	r.Check(n > 0 && bad == "", rule, fnName(fn)+":identity-is-a-projection", w.Pos(fn.Pos()),
+		"every value entering the member's identity is loaded from the member itself",
+		"a value that does not come from the candidate object enters its identity (at "+bad+"): a keyed hunk can match a member that does not carry the key, and the nested change lands in the wrong object")
+}
